@@ -9,6 +9,9 @@ import importlib
 import json
 import os
 import sys
+import warnings
+
+warnings.filterwarnings("ignore")  # sympy deprecation chatter from the code under test
 
 from sim import core
 
